@@ -94,8 +94,15 @@ def run(chk, tier, replay=None):
     key_of = lambda base, v, kind: "C04|%s|%s" % (
         {"differs": "nondeterministic-output", "hang": "encode-hang", "crash": "encoder-crash"}[kind],
         common.hang_sig(base) if kind == "hang" else sig4(base))
+    def differs_key(base, v, ndiff, nvar):
+        k = key_of(base, v, "differs")
+        # TPL on (the default) with more than one thread: 1-3 % of runs give a different stream (known finding). That
+        # rare form is kept apart from a difference shown by most perturbed runs of a configuration.
+        if int(base.get("cfg.enable_tpl_la", 1)) and int(base.get("cfg.logical_processors", 0)) != 1 and 2 * ndiff <= nvar:
+            k += "+tpl-rare"
+        return k
     results = equiv.run_groups(chk, "C04", groups, key_of, hang_in_scope=True, trace=True, per_result=per_result,
-                               confirm_baseline=False)
+                               confirm_baseline=False, differs_key=differs_key)
     per_group = {}
     for (gi, vi, case, v, res, sig, prefix, extra) in results:
         if extra and extra[0]:
